@@ -114,6 +114,10 @@ impl ConfigState for GenConfig {
 pub struct RandState<'a>(State<'a, GenConfig>);
 impl RandState<'_> {
     pub fn any(&mut self, u: &mut Unstructured, ty: &Type) -> Result<IDLValue> {
+        // A type without values (e.g. `type T = record { T }`) never bottoms out. The stack
+        // guard used to be consulted only when a type name was resolved, and one cycle through
+        // inline records can need more stack than the guard's margin; consult it on every level.
+        self.0.env.trace_type(ty)?;
         let old_config = self.0.push_state(&StateElem::Type(ty));
         if let Some(vec) = &self.0.config.value {
             let v = u.choose(vec)?;
